@@ -183,6 +183,9 @@ def language_diff(A, B, limit=20000):
 def carrier_of(F, name, exp):
     """The body that holds the expansion's prelude: the fn itself (sync) or its outer coroutine (async)."""
     path = FX + "::" + name
+    if exp.get("inner"):
+        # legacy async-trait shape: the attribute instruments the inner `async fn` called inside Box::pin(..)
+        path += "::" + exp["inner"]
     b = F.body(path)
     if b is None:
         return None, None
@@ -831,11 +834,11 @@ def span_field_written_by_ctor(car, op):
     return writes > 0
 
 
-def r3_lib(ck, L):
+def r3_lib(ck, L, rid="C17.R3"):
     """tracing::instrument::Instrumented: poll enters the span around the inner poll; drop enters it around the inner drop."""
     key = "Instrumented::poll enters the span around the inner poll"
     b = L.impl_method("core::future::future::Future", "tracing::instrument::Instrumented<", "poll")
-    if not ck.anchor("C17.R3", "Future for Instrumented", b):
+    if not ck.anchor(rid, "Future for Instrumented", b):
         return
     problems = []
     n = 0
@@ -848,7 +851,7 @@ def r3_lib(ck, L):
             cb = L.body(cd) if cd else None
             if cb is not None and any(ct["callee"].get("method") == "poll" and ct["callee"].get("trait") == "core::future::future::Future" for cbb, ct in cb.calls()) \
                     and b.postdominates(bb, 0):
-                ck.ok("C17.R3", key, fn=b.path, detail="through Span::in_scope (guard lifetime decided by C03.R5)")
+                ck.ok(rid, key, fn=b.path, detail="through Span::in_scope (guard lifetime decided by C03.R5)")
                 return
     ev = PathEval(b, unwind=True)
     for p in ev.run():
@@ -879,9 +882,9 @@ def r3_lib(ck, L):
         elif "exit" not in kinds[kinds.index("poll"):]:
             problems.append("the span is not exited after the inner poll on a path ending in %s%s" % (p.end, " (a panic in the polled future leaves the span entered on this thread)" if p.end == "resume" else ""))
     if n and not problems:
-        ck.ok("C17.R3", key, fn=b.path, detail="%d paths" % n)
+        ck.ok(rid, key, fn=b.path, detail="%d paths" % n)
     else:
-        ck.bad("C17.R3", key, where(b.raw["sp"]), "; ".join(sorted(set(problems))) or "no path polls the inner future", fn=b.path)
+        ck.bad(rid, key, where(b.raw["sp"]), "; ".join(sorted(set(problems))) or "no path polls the inner future", fn=b.path)
 
 
 # ------------------------------------------------------------------------------------------------ R4
